@@ -786,6 +786,50 @@ fn button_group() -> BoxedStrategy<Vec<RipSeg>> {
 }
 
 // ---------------------------------------------------------------------------------------------------------
+// lists part: a count field needs the list it announces (RIP_POLYGON, RIP_FILL_POLY, RIP_POLYLINE: npoints:2 then npoints x,y pairs;
+// the document allows 2..=512, the field holds up to ZZ = 1295)
+
+const LIST_COUNTS: [u32; 8] = [0, 1, 2, 511, 512, 513, 1024, 1295];
+/// a continuation (backslash CR LF) after every so many parameter characters; 0 = one line
+const LIST_WRAPS: [usize; 4] = [0, 76, 40, 4];
+
+pub fn lists_total() -> u64 {
+    (3 * 2 * LIST_COUNTS.len() * 5 * LIST_WRAPS.len()) as u64
+}
+
+pub fn lists_case(mut i: u64) -> RipCase {
+    let wrap = LIST_WRAPS[(i % 4) as usize];
+    i /= 4;
+    let completeness = i % 5;
+    i /= 5;
+    let n = LIST_COUNTS[(i % LIST_COUNTS.len() as u64) as usize];
+    i /= LIST_COUNTS.len() as u64;
+    let prefix = (i % 2) as u8;
+    let cmd = [b'P', b'p', b'l'][(i / 2) as usize];
+    // points actually sent: as announced, one short, one more, twice as many, none
+    let sent = match completeness {
+        0 => n,
+        1 => n.saturating_sub(1),
+        2 => n + 1,
+        3 => 2 * n,
+        _ => 0,
+    };
+    let mut body: Vec<u8> = b36(2, n);
+    for k in 0..sent {
+        body.extend(b36(2, (k * 37) % W));
+        body.extend(b36(2, (k * 53) % H));
+    }
+    let mut params: Vec<char> = Vec::with_capacity(body.len() + body.len() / 20);
+    for (k, b) in body.iter().enumerate() {
+        if wrap > 0 && k > 0 && k % wrap == 0 {
+            params.extend(['\\', '\r', '\n']);
+        }
+        params.push(*b as char);
+    }
+    RipCase { prefix, segs: vec![RipSeg { lvl: 0, cmd, params: Text(params), term: 1, cont: 255 }] }
+}
+
+// ---------------------------------------------------------------------------------------------------------
 // random part
 
 const JUNK: &[u8] = b" -.,;:$^<>~*#@_/()[]{}\\\x1b\x00\x7f\xe4\xff?+=&%\"'";
@@ -935,6 +979,8 @@ pub fn case_strategy(max_segs: usize) -> BoxedStrategy<RipCase> {
         2 => any::<u32>().prop_map(|i| fill_states_case(i as u64 % fill_states_total()).segs),
         2 => button_group(),
         1 => any::<u32>().prop_map(|i| styles_case(i as u64 % styles_total()).segs),
+        // now and then a long, complete point list
+        1 => any::<u32>().prop_map(|i| lists_case(i as u64 % lists_total()).segs),
     ];
     (prop_oneof![3 => Just(0u8), 1 => Just(1u8)], vec(group, 1..=max_segs))
         .prop_map(move |(prefix, groups)| {
